@@ -90,10 +90,13 @@ Definition blocks (bs : nat) (d : bytes) : list bytes :=
 
 Inductive body_src :=
 | BList (chunks : list bytes)            (* a list, a generator, a wrapper without seek: iterated in order *)
-| BFile (data : bytes) (bs : nat).       (* FileWrapper over a seekable file holding data, buffer_size bs *)
+| BFile (data : bytes) (bs : nat)        (* FileWrapper over a seekable file holding data, buffer_size bs *)
+| BWrap (data : bytes) (bs : nat) (has_seekable file_seekable has_seek : bool).
+  (* FileWrapper over any file object holding data: whether the object has a seekable() method, what it answers,
+     whether it has a seek attribute; FileWrapper.seekable() (regenerated) decides which path _RangeWrapper takes *)
 
 Definition full_body (b : body_src) : list bytes :=
-  match b with BList c => c | BFile d bs => blocks bs d end.
+  match b with BList c => c | BFile d bs => blocks bs d | BWrap d bs _ _ _ => blocks bs d end.
 
 (* ------------------------------------------------------------------ wsgi._RangeWrapper *)
 (* The statement structure of __init__ / _next_chunk / _first_iteration / _next / __next__ is pinned by the
@@ -185,16 +188,22 @@ Fixpoint drive (fuel : nat) (s : rw) : res (list bytes) :=
   end.
 End Wrapper.
 
+Definition rw_list (chunks : list bytes) (start len : nat) : res (list bytes) :=
+  drive false (fun _ => []) start (end_of start len) (S (S (length chunks)))
+    {| rw_it := chunks; rw_rl := initial_rl; rw_end := false |}.
+Definition rw_file (d : bytes) (bs start len : nat) : res (list bytes) :=
+  let it := blocks bs d in
+  let sk := fun p => blocks bs (skipn p d) in
+  drive true sk start (end_of start len) (S (S (length it + length (sk (seek_pos start)))))
+    {| rw_it := it; rw_rl := initial_rl; rw_end := false |}.
+
 Definition range_wrapper (b : body_src) (start len : nat) : res (list bytes) :=
   match b with
-  | BList chunks =>
-    drive false (fun _ => []) start (end_of start len) (S (S (length chunks)))
-      {| rw_it := chunks; rw_rl := initial_rl; rw_end := false |}
-  | BFile d bs =>
-    let it := blocks bs d in
-    let sk := fun p => blocks bs (skipn p d) in
-    drive true sk start (end_of start len) (S (S (length it + length (sk (seek_pos start)))))
-      {| rw_it := it; rw_rl := initial_rl; rw_end := false |}
+  | BList chunks => rw_list chunks start len
+  | BFile d bs => rw_file d bs start len
+  | BWrap d bs hs fs hk =>
+    seekable <- file_wrapper_seekable hs fs hk ;;
+    if seekable then rw_file d bs start len else rw_list (blocks bs d) start len
   end.
 
 (* ------------------------------------------------------------------ the response as a whole *)
